@@ -211,9 +211,66 @@ fn replay_entity_mutation(sc: &Value) -> Value {
     }
 }
 
+fn replay_deletion(sc: &Value) -> Value {
+    let mut keys = Keys::new();
+    let ra = match room_auth(sc, &mut keys) {
+        Ok(r) => r,
+        Err(e) => return json!({"status": "precondition", "detail": e}),
+    };
+    let mut dq = DeletionQuery {
+        nodes: vec![],
+        node_log: vec![],
+        updated_nodes: vec![],
+        edges: vec![],
+        edge_log: vec![],
+    };
+    for it in sc["items"].as_array().unwrap() {
+        let author = keys.vk(it["author"].as_str().unwrap());
+        if it["kind"].as_str().unwrap() == "node" {
+            dq.nodes.push(NodeDelete {
+                node: Node {
+                    id: uid(it["id"].as_str().unwrap()),
+                    room_id: opt_uid(&it["room"]),
+                    cdate: 0,
+                    mdate: i(&it["mdate"]),
+                    _entity: s(&it["short"]),
+                    _json: Some("{}".to_string()),
+                    _binary: None,
+                    verifying_key: author,
+                    _signature: vec![],
+                    _local_id: None,
+                },
+                name: s(&it["name"]),
+                date: i(&it["date"]),
+            });
+        } else {
+            dq.edges.push(EdgeDelete {
+                edge: Edge {
+                    src: uid(it["src"].as_str().unwrap()),
+                    src_entity: s(&it["short"]),
+                    label: "l".to_string(),
+                    dest: uid(it["dest"].as_str().unwrap()),
+                    cdate: i(&it["cdate"]),
+                    verifying_key: author,
+                    signature: vec![],
+                },
+                src_name: s(&it["name"]),
+                room_id: opt_uid(&it["room"]),
+                date: i(&it["date"]),
+            });
+        }
+    }
+    let res = ra.validate_deletion(&mut dq);
+    match res {
+        Ok(()) => json!({"status": "done", "result": "Ok", "node_log": dq.node_log.len(), "edge_log": dq.edge_log.len()}),
+        Err(e) => json!({"status": "done", "result": "Err", "error": format!("{}", e)}),
+    }
+}
+
 pub fn dispatch(sc: &Value) -> Value {
     match sc["kind"].as_str().unwrap_or("") {
         "entity_mutation" => replay_entity_mutation(sc),
+        "deletion" => replay_deletion(sc),
         other => json!({"status": "unknown-kind", "kind": other}),
     }
 }
@@ -380,5 +437,68 @@ mod api {
             .await
             .unwrap();
         println!("VERIF-API pets={}", q.replace('\n', ""));
+    }
+
+    /// C01: a reference from sys.Room to one of its authorisation groups (or from a group to one of
+    /// its entries) must not be deletable outside a room mutation.
+    #[tokio::test(flavor = "multi_thread")]
+    async fn verif_api_delete_auth_reference() {
+        if std::env::var("VERIF_API").map(|v| v != "delete_auth_reference").unwrap_or(true) {
+            return;
+        }
+        let data_model = "ns { Person{ name:String } }";
+        let secret = random32();
+        let (app, verifying_key, _) = GraphDatabaseService::start(
+            "verif app",
+            data_model,
+            &secret,
+            &random32(),
+            data_path("delete_auth_reference"),
+            &Configuration::default(),
+            EventService::new(),
+        )
+        .await
+        .unwrap();
+        let user_id = base64_encode(&verifying_key);
+        let mut param = Parameters::default();
+        param.add("user_id", user_id).unwrap();
+        let room = app
+            .mutate_raw(
+                r#"mutate mut {
+                    sys.Room{
+                        admin: [{ verif_key:$user_id }]
+                        authorisations:[{
+                            name:"admin"
+                            rights:[{ entity:"ns.Person" mutate_self:true mutate_all:true }]
+                        }]
+                    }
+                }"#,
+                Some(param),
+            )
+            .await
+            .unwrap();
+        let room_insert = &room.mutate_entities[0];
+        let room_id = base64_encode(&room_insert.node_to_mutate.id);
+        let auth = &room_insert.sub_nodes.get("authorisations").unwrap()[0];
+        let auth_id = base64_encode(&auth.node_to_mutate.id);
+        let before = app
+            .query("query q{ sys.Room{ authorisations{ name } } }", None)
+            .await
+            .unwrap();
+        let mut param = Parameters::default();
+        param.add("room_id", room_id.clone()).unwrap();
+        param.add("auth_id", auth_id.clone()).unwrap();
+        let res = app
+            .delete(
+                "delete d { sys.Room { $room_id authorisations[$auth_id] } }",
+                Some(param),
+            )
+            .await;
+        println!("VERIF-API reference_delete_refused={}", res.is_err());
+        let after = app
+            .query("query q{ sys.Room{ authorisations{ name } } }", None)
+            .await
+            .unwrap();
+        println!("VERIF-API before={} after={}", before.replace('\n', ""), after.replace('\n', ""));
     }
 }
